@@ -36,6 +36,7 @@ func run(e *harness.Env) {
 		"hex = hexadecimal-string spellings enumerated directly (coverage key hex_space: 0..5 digits x white space at one gap / two gaps / every gap incl. inside a pair and before '>', all six white bytes and all pairs of two) x contexts (quick 5, thorough 13) x whitespace policy, both parsers; " +
 		"rep = 14 unit kinds (dict, dict in array, dict in dict, arrays, strings, hex strings, names, numbers, keywords, references) repeated N in {257,300,1000} times (crossing the parsers' 256 nesting limit and the 4096-byte buffer) as one array, as the values of one dict and as a sequence of top-level objects / operations in one stream x 6 policies incl. a comment after every token; " +
 		"runs = 12 multi-token constructs (n g R, n g obj .. endobj via ParseIndirectObject, dict key/value, array elements, stream keyword) x runs of 1..3 consecutive comments in each single token gap and in every gap at once x EOL x ws{min,sp}; " +
+		"stream = stream objects through ParseIndirectObject with direct /Length: first x last data byte over {LF,CR,CRLF,SP,NUL,%,e,ordinary} x middle x EOL after stream {LF,CRLF} x before endstream {none,LF,CR,CRLF} x ws x dict shape, data must be exactly the /Length bytes; " +
 		"big = 6 long structures (1500-member array over all leaves, 400-key dict, 9000-byte string + 119-byte name, 3000 one-digit ints ending in references, nesting depth 40) x policy; " +
 		fmt.Sprintf("quirk = %d mostly illegal operand spellings x 3 tails, differential only (both parsers accept => equal value). ", len(quirks)) +
 		"Policy = whitespace{sp,min,nl,mix of all six white bytes} x comments{off,sep,all=also inside n g R} x EOL{LF,CR,CRLF} x " +
@@ -50,7 +51,7 @@ func run(e *harness.Env) {
 	for _, sp := range []struct {
 		name string
 		f    func(*harness.Env)
-	}{{"leaf", leafSpace}, {"tree", treeSpace}, {"prog", progSpace}, {"hex", hexSpace}, {"rep", repSpace}, {"runs", runsSpace}, {"deep", deepSpace}, {"big", bigSpace}, {"quirk", quirkSpace}} {
+	}{{"leaf", leafSpace}, {"tree", treeSpace}, {"prog", progSpace}, {"hex", hexSpace}, {"rep", repSpace}, {"runs", runsSpace}, {"stream", streamSpace}, {"deep", deepSpace}, {"big", bigSpace}, {"quirk", quirkSpace}} {
 		if only == "" || only == sp.name {
 			sp.f(e)
 		}
